@@ -55,6 +55,7 @@ class Contract:
         self.ghost_fields = set(kw.pop("ghost_fields", []))
         # frame of modular calls on heap maps: [(map expression, key expression)] evaluated in the pre-state
         self.modifies_maps = list(kw.pop("modifies_maps", []))
+        self.variant_modifies_maps = dict(kw.pop("variant_modifies_maps", {}))    # additional map cells per variant
         # names of opaque heap predicates (pyvc.spec.HeapPred) whose definition this contract's proof may unfold
         self.reveal = set(kw.pop("reveal", []))
         # {callee key: {ghost parameter of the callee: clause expression over this function's parameters / ghosts}}: instantiates the
